@@ -72,10 +72,6 @@ partial def denoteData : Expr → Option PData
     (go kvs).map .map
   | _ => none
 
-def numOf : Expr → Option Int
-  | .leaf (.number n) => some n
-  | .node .assets [_, _, .leaf (.number n)] => some n
-  | _ => none
 
 /-- The number a one-number position denotes: a number, or a value of exactly one entry whose amount denotes one
 (to any depth; the relation `ScalarOf` of `C02_scalar_shape`). Independent of the model's `exprIntoNumber`. -/
@@ -83,6 +79,9 @@ def scalarOf : Expr → Option Int
   | .leaf (.number n) => some n
   | .node .assets [_, _, a] => scalarOf a
   | _ => none
+
+/-- The amount of an entry is read by the same function as a one-number position. -/
+def numOf : Expr → Option Int := scalarOf
 
 def bytesOf : Expr → Option Bytes
   | .leaf (.bytes b) => some b
